@@ -6,6 +6,7 @@ import (
 	"runtime"
 
 	"verif/engine/chk"
+	"verif/engine/h1"
 	"verif/engine/loop"
 )
 
@@ -165,7 +166,107 @@ func runLoopConfigs(c *chk.Ctx, prop string, cfgs []*loop.Config, handover bool)
 	}
 }
 
+func c03ScaleUpGen(c *chk.Ctx) func(emit func(*h1.Scenario)) {
+	classes := []int{clsLoaded, clsIdleRecent, clsIdleExpired, clsIdleExpiredStale, clsHeadOver}
+	return func(emit func(*h1.Scenario)) {
+		for n := 1; n <= 3; n++ {
+			dims := make([]int, n)
+			for i := range dims {
+				dims[i] = len(classes)
+			}
+			product(dims, func(ix []int) {
+				for ui, un := range c07Unscraped {
+					for _, mm := range [][2]int32{{0, 99}, {0, 3}, {2, 3}} {
+						for _, idle := range []int64{0, 3600} {
+							for _, head := range []int64{0, 50, 100} {
+								sc := &h1.Scenario{Opt: h1.Opt{MaxHead: head, MaxProc: 100, MaxShard: mm[1], MinShard: mm[0], IdleSec: idle}}
+								rep := h1.Replica{}
+								note := ""
+								for si, k := range ix {
+									s, ts := c07Shard(classes[k], si, head)
+									rep.Shards = append(rep.Shards, s)
+									sc.Targets = append(sc.Targets, ts...)
+									note += clsNames[classes[k]] + ","
+								}
+								for k, st := range un {
+									st := st
+									sc.Targets = append(sc.Targets, h1.Tgt{Hash: uint64(10 + k), Job: "j", Discovered: true, Explore: &st})
+								}
+								sc.Note = fmt.Sprintf("%s unscraped=%d", note, ui)
+								sc.Cycles = [][]h1.Replica{{rep}}
+								emit(sc)
+							}
+						}
+					}
+				}
+			})
+		}
+	}
+}
+
+func c03ScaleUpOracle(sc *h1.Scenario, o *h1.Obs) []Finding {
+	var fs []Finding
+	for ci, cy := range o.Cycles {
+		if cy.Panic != "" {
+			fs = append(fs, Finding{Clause: "no-crash", Sig: "C03:panic", Detail: cy.Panic})
+			continue
+		}
+		for ri := range cy.Reps {
+			rep := &sc.Cycles[ci][ri]
+			ro := &cy.Reps[ri]
+			cur := int32(len(rep.Shards))
+			allInSync := true
+			stale := false
+			for si := range rep.Shards {
+				if !rep.Shards[si].InSync() {
+					allInSync = false
+				}
+				if len(rep.Shards[si].Status) == 0 && rep.Shards[si].Head > 0 {
+					stale = true
+				}
+			}
+			if !allInSync || cur >= sc.Opt.MaxShard {
+				continue
+			}
+			unplaced := eligibleUnplaced(sc, rep, ro)
+			// eligible means it fits a shard: strictly below every limit (placement is strict)
+			var el []uint64
+			for _, h := range unplaced {
+				for _, t := range sc.Targets {
+					if t.Hash == h && t.Explore.Total < sc.Opt.MaxProc && (sc.Opt.MaxHead == 0 || t.Explore.Series < sc.Opt.MaxHead) {
+						el = append(el, h)
+					}
+				}
+			}
+			if len(el) == 0 {
+				continue
+			}
+			last := int32(-1)
+			if len(ro.Scales) > 0 {
+				last = ro.Scales[len(ro.Scales)-1]
+			}
+			if last <= cur {
+				feat := ""
+				if stale {
+					feat = ":idle-shard-with-stale-head"
+				}
+				fs = append(fs, Finding{Clause: "scale-up-when-unplaced", Sig: "C03:no-scale-up-for-unplaced:single-cycle" + feat,
+					Detail: fmt.Sprintf("all %d shards in sync, eligible target(s) %v left unplaced, max-shard %d: last scale request %d (requests %v)", cur, el, sc.Opt.MaxShard, last, ro.Scales)})
+			}
+		}
+	}
+	return fs
+}
+
 func init() {
-	chk.Register("C03", func(c *chk.Ctx) { runLoopCheck(c, "C03", false) })
+	chk.Register("C03", func(c *chk.Ctx) {
+		// the last sentence of the statement, decided on single cycles over scripted shard reports (stale head
+		// series of drained shards only exist there): all shards in sync, an eligible unscraped target left
+		// unplaced by the cycle, room below max-shard => the requested count exceeds the current one
+		runH1(c, 1, c03ScaleUpGen(c), c03ScaleUpOracle, nil)
+		c.R.Counters["single_cycle_part_deviation_bound"] = 1
+		c.R.DevBound = 0 // the closed loop below runs at the default order (0 deviations)
+		runLoopCheck(c, "C03", false)
+	})
 	chk.Register("C06", func(c *chk.Ctx) { runLoopCheck(c, "C06", true) })
 }
